@@ -3,7 +3,7 @@
    [cinvb] (the cache invariant relative to it), each with a soundness proof. The extracted tests are run by the replay
    on the implementation's cache contents (after every operation / at every quiescent point). *)
 From Coq Require Import Sorting.Sorted.
-From Verif Require Import Base.Lex Region.Model Region.Ord Region.ProofsInsert Region.Converge Region.ProofsConvA Region.ProofsConvB Region.ProofsConvC.
+From Verif Require Import Base.Lex Region.Model Region.Ord Region.ProofsInsert Region.Converge Region.ProofsConvA Region.ProofsConvB Region.ProofsConvC Region.ProofsReach.
 Open Scope N_scope.
 
 (* ---- small decision procedures ---- *)
@@ -186,4 +186,34 @@ Proof.
   intros Hw Hc H2 H3 H4 H5. apply truth_wfb_sound in Hw. apply cinvb_sound in Hc.
   destruct (tw_cover _ Hw k) as [T [HT Hk]].
   exact (converges truth Hw cur_of H2 pd H3 budget fuel H4 H5 k T HT Hk c Hc).
+Qed.
+
+(* ---- the epoch discipline over a finite history (the region states PD and the stores reported during a run) ---- *)
+Definition hist_parts (truth hist : list desc) : list bool :=
+  [ forallb (fun h => forallb (fun T => implb (verid_eqb (d_verid h) (d_verid T))
+       (bytes_eqb (d_start h) (d_start T) && bytes_eqb (d_end h) (d_end T) && peers_eqb (d_peers h) (d_peers T))) truth) hist;
+    forallb (fun h1 => forallb (fun h2 => implb (verid_eqb (d_verid h1) (d_verid h2)) (bytes_eqb (d_start h1) (d_start h2))) hist) hist;
+    forallb (fun h => forallb (fun T => implb (tcontains T (d_start h)) (d_ver h <=? d_ver T)) truth) hist;
+    forallb (fun h => forallb (fun T => implb (d_id h =? d_id T) ((d_ver h <=? d_ver T) && (d_conf h <=? d_conf T))) truth) hist;
+    forallb (fun h => is_nil (d_end h) || lex_ltb (d_start h) (d_end h)) hist ].
+Definition hist_okb (truth hist : list desc) : bool := forallb (fun b : bool => b) (hist_parts truth hist).
+
+Lemma hist_okb_sound truth hist : hist_okb truth hist = true -> hist_ok truth (fun d => In d hist).
+Proof.
+  unfold hist_okb, hist_parts. cbn [forallb]. intros H.
+  rewrite !andb_true_iff in H. destruct H as [G1 [G2 [G3 [G4 [G5 _]]]]].
+  constructor.
+  - intros h T Hh HT Hv. pose proof (forallb2 _ _ _ G1 h T Hh HT) as E. cbv beta in E.
+    apply (fun E => implb_elim _ _ E (proj2 (verid_eqb_eq _ _) Hv)) in E.
+    apply andb_true_iff in E. destruct E as [E E3]. apply andb_true_iff in E. destruct E as [E1 E2].
+    apply bytes_eqb_eq in E1, E2. apply peers_eqb_true in E3. repeat split; assumption.
+  - intros h1 h2 A B Hv. pose proof (forallb2 _ _ _ G2 h1 h2 A B) as E. cbv beta in E.
+    apply (fun E => implb_elim _ _ E (proj2 (verid_eqb_eq _ _) Hv)) in E. apply bytes_eqb_eq in E. exact E.
+  - intros h T Hh HT Hc. pose proof (forallb2 _ _ _ G3 h T Hh HT) as E. cbv beta in E.
+    apply (fun E => implb_elim _ _ E Hc) in E. apply N.leb_le. exact E.
+  - intros h T Hh HT Hi. pose proof (forallb2 _ _ _ G4 h T Hh HT) as E. cbv beta in E.
+    apply (fun E => implb_elim _ _ E (proj2 (N.eqb_eq _ _) Hi)) in E.
+    apply andb_true_iff in E. destruct E as [E1 E2]. split; apply N.leb_le; assumption.
+  - intros h Hh. pose proof (proj1 (forallb_forall _ _) G5 h Hh) as E. cbv beta in E.
+    apply orb_true_iff in E. destruct E as [E|E]; [left; apply is_nil_true'; exact E|right; exact E].
 Qed.
